@@ -256,6 +256,24 @@ pub fn invalid_menu(m: &Model) -> Vec<InvalidCase> {
             ));
         }
     }
+    // a valid target relative to an annotation whose text selection is already known (resolving it looks the selection up, and
+    // must find it rather than make a second one), in a request that fails afterwards
+    if let Some(a) = m.anns.iter().flatten().find(|a| a.id.is_some() && a.simple_text().map(|(_, b, e)| e > b).unwrap_or(false)) {
+        let rel = TNode::S(TSimple::Ann { ann: a.id.clone().unwrap(), off: Some(Off::whole()) });
+        v.push(mk("valid-relative-target+duplicate-annotation-id", Some(rel.clone()), vec![], a.id.clone(), Some(rel.clone()), vec![], nid.clone()));
+        // (only where the dataset exists: that a failing data reference leaves a new, empty dataset behind is recorded under valid-target+unknown-existing-data)
+        if m.set_idx("s0").is_some() {
+        v.push(mk(
+            "valid-relative-target+unknown-existing-data",
+            Some(rel.clone()),
+            vec![DataT::Existing { set: "s0".into(), id: "nodata".into() }],
+            nid.clone(),
+            Some(rel.clone()),
+            vec![],
+            nid.clone(),
+        ));
+        }
+    }
     // a full data definition under an identifier that is already taken by other content, with a key and a dataset that do not
     // exist yet (the library may accept this by re-using the existing item, or refuse it; if it refuses, nothing may stay behind)
     if let Some(si) = m.set_idx("s0") {
